@@ -201,6 +201,9 @@ fn profile(narrow: bool) -> Profile {
 }
 
 fn run(ctx: &Ctx, mode: &str) -> Report {
+    if mode == "run" {
+        return super::jobs::c19_run().run(ctx, mode);
+    }
     let mut report = Report::default();
     let known = load_known(&ctx.verif_dir);
     let f1_open = is_open(&known, "C19", "forward-narrowing-unconnected-producer");
@@ -253,7 +256,10 @@ fn run(ctx: &Ctx, mode: &str) -> Report {
     report
 }
 
-fn replay(_ctx: &Ctx, v: &Value) -> Result<String, String> {
+fn replay(ctx: &Ctx, v: &Value) -> Result<String, String> {
+    if v.get("configs").is_some() {
+        return super::jobs::c19_run().replay(ctx, v);
+    }
     let job: JobSpec = serde_json::from_value(v["job"].clone()).map_err(|e| e.to_string())?;
     let layout: Layout = serde_json::from_value(v["layout"].clone()).map_err(|e| e.to_string())?;
     let ds = dumps(&job, &layout)?;
@@ -264,9 +270,9 @@ pub fn def() -> CheckDef {
     CheckDef {
         id: "C19",
         level: "exploration",
-        rule: "random job structures (loops, diamonds, multi-output blocks, repartition_by into Limited(n)/Host/One blocks, forward edges) x layouts of 1-6 hosts with 1-8 cores (heterogeneous, 1-core hosts); the execution graph and address map are computed once per host id through the dump hook without starting workers; oracle: dumps equal on all hosts, replicas per block follow the declared replication, global ids are a bijection onto 0..n, forward edges give every producer replica exactly one consumer (the same-index one when it exists), other edges are all-to-all, every remote link has an address, addresses are distinct and on the consumer's host; non-trivial = >= 2 hosts with a Limited/Host block, a forward and an all-to-all edge; distinct = hash of (job structure, layout)",
-        assumptions: &["the forward/all-to-all kind and the declared replication of a block are read from the dump itself (routing through them is C03's subject)"],
-        modes: |t| vec![("main", t.pick(6, 12)), ("narrow", 1)],
+        rule: "random job structures (loops, diamonds, multi-output blocks, repartition_by into Limited(n)/Host/One blocks, forward edges) x layouts of 1-6 hosts with 1-8 cores (heterogeneous, 1-core hosts); the execution graph and address map are computed once per host id through the dump hook without starting workers; oracle: dumps equal on all hosts, replicas per block follow the declared replication, global ids are a bijection onto 0..n, forward edges give every producer replica exactly one consumer (the same-index one when it exists), other edges are all-to-all, every remote link has an address, addresses are distinct and on the consumer's host; a second mode runs real jobs and compares, at every probe, the set of (host, replica) the block runs on with an independent model of its declared replication; non-trivial = >= 2 hosts with a Limited/Host block, a forward and an all-to-all edge (dump mode), >= 2 hosts and >= 2 repartitioning edges (run mode); distinct = hash of (job structure, layout)",
+        assumptions: &["in the dump mode the forward/all-to-all kind and the declared replication of a block are read from the dump itself; the run mode checks the declaration against the harness' own model of the API (replication(r), repartition_by, fold -> One, zip -> One, ...)"],
+        modes: |t| vec![("main", t.pick(6, 12)), ("run", t.pick(6, 8))],
         run,
         replay,
     }
